@@ -79,3 +79,15 @@ claim("C19", module="props.c19", category="proof",
       technique="contract-based deductive verification: object invariant over ghost sequence/multiset views, loop "
                 "invariants over the iterator protocol, frame conditions, z3 (quantifier instantiation with explicit triggers)",
       design_ref="DESIGN.md 5.C19")
+
+claim("C18", module="props.c18", category="proof",
+      text="Constructor post-condition (metadata contract) evaluated on every member of every finite family (2,509 instances, "
+           "exhaustive; Rastrigin/XSquared for dimension 1..5) + for each of the 2 x 1000 Hill/Shekel functions the "
+           "universally quantified table obligations (minimum, maximum: value and location; Lipschitz constant) proved over "
+           "the whole interval by executing the real Calculate in outward-rounded interval arithmetic with branch and bound "
+           "(derivative by forward-mode AD on the real code).",
+      note="finite-family enumeration is complete for the finite families; interval back end (own code) and libm accuracy are "
+           "trusted; Rastrigin/XSquared beyond dimension 5 by uniformity of the constructor (argued, not machine-checked)",
+      technique="contract-based: constructor post-conditions enumerated exhaustively over the finite families; forall-x "
+                "obligations on the real Calculate discharged by a rigorous interval branch-and-bound back end",
+      design_ref="DESIGN.md 5.C18")
